@@ -440,3 +440,97 @@ def enclosing_stmt_text(fnode, node):
     while id(cur) in enc and not isinstance(cur, ast.stmt):
         cur = enc[id(cur)]
     return cur
+
+
+MUTATORS = ("add", "append", "extend", "update", "insert", "pop", "popitem", "remove", "discard", "clear", "setdefault", "appendleft")
+
+
+def check_shared_class_state(model: RepoModel, rep, RID: str, rels: Iterable[str]) -> int:
+    """G6: a mutable object bound at class level (`cache: dict = {}` in the class body) is ONE object shared by every instance.  That is
+    fine for constant tables that are only read; it silently couples instances as soon as a method writes into it through `self`
+    (`self.cache[k] = v`, `self.cache.add(x)`): what one instance records, every other instance sees -- per-pair, per-frame, per-file
+    state stops being per anything.  (Dataclass fields with `default_factory` are per instance and are not judged.)"""
+    n = 0
+    for rel in rels:
+        mod = model.module(rel)
+        for ci in mod.classes.values():
+            for st in ci.node.body:
+                tgt = val = None
+                if isinstance(st, ast.Assign) and len(st.targets) == 1 and isinstance(st.targets[0], ast.Name):
+                    tgt, val = st.targets[0].id, st.value
+                elif isinstance(st, ast.AnnAssign) and isinstance(st.target, ast.Name) and st.value is not None:
+                    tgt, val = st.target.id, st.value
+                if tgt is None:
+                    continue
+                mutable = isinstance(val, (ast.Dict, ast.List, ast.Set)) or (isinstance(val, ast.Call) and isinstance(val.func, ast.Name)
+                                                                             and val.func.id in EMPTY_CTORS)
+                if not mutable:
+                    continue
+                n += 1
+                key = f"{rel}::{ci.name}.{tgt}::class-level mutable object is not written through self"
+                # rebinding in __init__ (`self.x = {}`) gives every instance its own object again
+                init = ci.methods.get("__init__")
+                rebound = init is not None and any(isinstance(a, ast.Assign) and any(isinstance(t, ast.Attribute) and t.attr == tgt and isinstance(t.value, ast.Name)
+                                                                                       and t.value.id == "self" for t in a.targets) for a in walk_no_nested(init.node))
+                writes = []
+                for f in ci.methods.values():
+                    for x in walk_no_nested(f.node):
+                        if isinstance(x, (ast.Assign, ast.AugAssign, ast.Delete)):
+                            for t in (x.targets if isinstance(x, (ast.Assign, ast.Delete)) else [x.target]):
+                                b = t
+                                while isinstance(b, ast.Subscript):
+                                    b = b.value
+                                if b is not t and isinstance(b, ast.Attribute) and b.attr == tgt and isinstance(b.value, ast.Name) and b.value.id == "self":
+                                    writes.append(x)
+                        if isinstance(x, ast.Call) and isinstance(x.func, ast.Attribute) and x.func.attr in MUTATORS and isinstance(x.func.value, ast.Attribute) \
+                                and x.func.value.attr == tgt and isinstance(x.func.value.value, ast.Name) and x.func.value.value.id == "self":
+                            writes.append(x)
+                if writes and not rebound:
+                    rep.violation(RID, key, rel, st.lineno,
+                                  f"`{tgt} = {norm(val)[:30]}` in the body of class {ci.name} is one object for all instances, and `{norm(writes[0])[:70]}` "
+                                  f"(line {writes[0].lineno}) writes into it through self: every {ci.name}() shares what any of them records, so state that "
+                                  f"is meant to start empty per instance carries over from one to the next")
+                else:
+                    rep.holds(RID, key, rel, st.lineno, "re-bound per instance in __init__" if rebound else "only read (a constant table)")
+    return n
+
+
+def check_fresh_instance_state(model: RepoModel, rep, RID: str, rel: str, cname: str) -> int:
+    """a freshly constructed <cname> starts empty: every container its methods write into through self is bound in __init__ (to a new
+    object), not inherited from the class body or from a previous instance"""
+    ci = model.module(rel).classes.get(cname)
+    if ci is None:
+        raise AnalysisError(f"{rel}: class {cname} vanished")
+    init = ci.methods.get("__init__")
+    written: Dict[str, ast.AST] = {}
+    for f in ci.methods.values():
+        for x in walk_no_nested(f.node):
+            if isinstance(x, (ast.Assign, ast.AugAssign, ast.Delete)):
+                for t in (x.targets if isinstance(x, (ast.Assign, ast.Delete)) else [x.target]):
+                    b = t
+                    while isinstance(b, ast.Subscript):
+                        b = b.value
+                    if b is not t and isinstance(b, ast.Attribute) and isinstance(b.value, ast.Name) and b.value.id == "self":
+                        written.setdefault(b.attr, x)
+            if isinstance(x, ast.Call) and isinstance(x.func, ast.Attribute) and x.func.attr in MUTATORS and isinstance(x.func.value, ast.Attribute) \
+                    and isinstance(x.func.value.value, ast.Name) and x.func.value.value.id == "self":
+                written.setdefault(x.func.value.attr, x)
+    bound = {}
+    if init is not None:
+        for a in walk_no_nested(init.node):
+            if isinstance(a, (ast.Assign, ast.AnnAssign)):
+                for t in (a.targets if isinstance(a, ast.Assign) else [a.target]):
+                    if isinstance(t, ast.Attribute) and isinstance(t.value, ast.Name) and t.value.id == "self":
+                        bound[t.attr] = a
+    n = 0
+    for attr, w in sorted(written.items()):
+        n += 1
+        key = f"{rel}::{cname}.{attr}::created per instance"
+        if attr in bound:
+            rep.holds(RID, key, rel, bound[attr].lineno, f"bound in __init__ (`{norm(bound[attr])[:60]}`)")
+        else:
+            rep.violation(RID, key, rel, w.lineno,
+                          f"{cname} writes into `self.{attr}` (`{norm(w)[:70]}`) but __init__ does not create it: the container lives on the class (or "
+                          f"is created elsewhere) and is shared by every {cname}(), so an instance that is supposed to start empty sees what earlier "
+                          f"instances recorded")
+    return n
